@@ -7,13 +7,20 @@
    serverContextManager (static + SDS backed contexts) / clientContextManager with a stock crypto/tls peer doing the
    handshake; a seeded sample is replayed again (-mode e2e) through TLS listeners and TLS clusters of an in-process MOSN
    (tcp_proxy, echo upstreams). TLC validates both recorded traces (certificate presented, handshake result, plaintext
-   served / sent)."""
+   served / sent).
+   Returning peers (cases with the field res; actions Return / Expire / Resume of TLSSelect): a stock client with a session
+   cache handshakes once under the initial configuration, then its short-lived certificate runs out and / or the update
+   history is pushed, then it connects again offering its ticket (TLS 1.2) / PSK (TLS 1.3); the second connection is
+   judged by the policy and the clock of that moment, abbreviated handshake or not. The same towards upstreams (a stock
+   server that hands out tickets, visited twice by MOSN). All first visits are paid before the other cases, all second
+   visits after them: one (usually empty) wait per driver run."""
 import json, os, random, re
 import vlib
 
 LEVEL = "model_checking"
 
-DEFECTS = ["SharedMatchSet", "EmptyServerName", "IfGivenForRequire", "PlainWhenNotReady", "SkipVerifyLeftOn", "StaleOnEqualHash", "InspectorLagsUpdate", "PoolCachedByPath", "RotationBuildsOutsideLock"]
+DEFECTS = ["SharedMatchSet", "EmptyServerName", "IfGivenForRequire", "PlainWhenNotReady", "SkipVerifyLeftOn", "StaleOnEqualHash", "InspectorLagsUpdate", "PoolCachedByPath", "RotationBuildsOutsideLock",
+           "ResumeSkipsVerification", "UpstreamSessionCache"]
 
 
 def mismatches(txt):
@@ -28,6 +35,11 @@ def runs(c):
     update history twice (static and SDS backed contexts), anything else once"""
     explicit = ("casrc" in c["ctxs"][0]) if c["side"] == "srv" else ("casrc" in c["cfg"])
     return 1 if explicit or not c["upds"] else 2
+
+
+def visits(c):
+    """handshakes recorded per execution: a returning peer (field res) connects twice"""
+    return 2 if "res" in c else 1
 
 
 def brief(mgr):
@@ -83,19 +95,19 @@ def run(ctx):
             sched = None
             if "c" in c:                     # a race case wrapped with its schedule
                 c, sched = c["c"], c["sched"]
-            n_direct += runs(c)
+            n_direct += runs(c) * visits(c)
             if c["side"] == "up":
                 ups.append((c, ln))        # e2e: cluster TLS updates go through the running cluster manager
                 continue
-            k = json.dumps([c["ctxs"], c["insp"], c["upds"], sched], sort_keys=True)
+            k = json.dumps([c["ctxs"], c["insp"], c["upds"], sched, "res" in c], sort_keys=True)
             if k not in groups:
                 groups[k] = []
                 order.append(k)
             groups[k].append((c, ln))
 
-    def special(g):   # client-auth matrix, inspector, readiness and update-history groups are always taken
+    def special(g):   # client-auth matrix, inspector, readiness, update-history and returning-peer groups are always taken
         c = g[0][0]
-        return bool(c["upds"]) or c["insp"] or any(x["verify"] or x["require"] for x in c["ctxs"]) or any(y[0]["first"] == "plain" for y in g)
+        return bool(c["upds"]) or c["insp"] or "res" in c or any(x["verify"] or x["require"] for x in c["ctxs"]) or any(y[0]["first"] == "plain" for y in g)
     keep = [k for k in order if special(groups[k])]
     rest = [k for k in order if not special(groups[k])]
     keep += rng.sample(rest, min(len(rest), 40 if q else 250))
@@ -106,7 +118,7 @@ def run(ctx):
                 fh.write(ln)
         for _, ln in ups:
             fh.write(ln)
-    n_e2e = sum(len(groups[k]) * runs(groups[k][0][0]) for k in keep) + sum(runs(c) for c, _ in ups)
+    n_e2e = sum(runs(c) * visits(c) for k in keep for c, _ in groups[k]) + sum(runs(c) * visits(c) for c, _ in ups)
     e2e_trace = os.path.join(ctx.tmp, "c13_e2e.ndjson")
     for attempt in (1, 2):
         try:
@@ -161,6 +173,20 @@ def run(ctx):
             "upstream_ok": sum(1 for e in evs if e["ev"] == "up" and e["ok"]),
             "upstream_refused": sum(1 for e in evs if e["ev"] == "up" and not e["ok"]),
         }
+        # returning peers: what their second connection was (abbreviated / full handshake, served / refused)
+        second = [e for e in evs if e["ev"] == "hs" and e.get("ticket")]
+        ctx.cov.setdefault("returning_peers", {})[part] = {
+            "ticket_offered": len(second),
+            "resumed_ok": sum(1 for e in second if e["resumed"] and e["ok"]),
+            "ticket_refused": sum(1 for e in second if not e["ok"]),
+            "ticket_declined_full_handshake_ok": sum(1 for e in second if e["ok"] and not e["resumed"]),
+            "certificate_run_out": sum(1 for e in second if e["late"] == "yes"),
+            "certificate_run_out_refused": sum(1 for e in second if e["late"] == "yes" and not e["ok"]),
+            "clock_edge": sum(1 for e in evs if e["ev"] in ("hs", "up") and e.get("late") == "edge"),
+            "upstream_second_visits": sum(1 for e in evs if e["ev"] == "up" and e.get("visit") == 2),
+            "upstream_resumed": sum(1 for e in evs if e["ev"] == "up" and e.get("resumed")),
+            "waited_ms": max([e["ms"] for e in evs if e["ev"] == "wait"] or [0]),
+        }
         mgr_at, upd_at, cur, upds = {}, {}, None, []
         for i, e in enumerate(evs, 1):
             if e["ev"] == "mgr":
@@ -196,7 +222,12 @@ def run(ctx):
                        "6 peer kinds x 2 versions, 1-2 contexts) + inspector x first-byte x readiness + upstream (server_name x "
                        "insecure_skip x CA x certificate issuer/expiry) + update histories of 1-2 single-field updates (ca, names, server_name, alpn, "
                        "verify, require, the listener's inspector flag / skip, ca, server_name) on contexts already in use, each run with static contexts (listener/cluster "
-                       "config update) and with SDS contexts (secret push or in-place re-configuration), enumerated by TLC from TLSSelectMC; all replayed into the real context "
+                       "config update) and with SDS contexts (secret push or in-place re-configuration) + returning peers (two connections each, the second "
+                       "offering the session ticket / PSK of the first: 4 modes x peers none/self/ca1/short-lived ca1 leaf that runs out in between; 15 histories "
+                       "that tighten verify/require, rotate the CA or replace the context between the visits x 4 peers; expiry combined with an update of "
+                       "another context; CA rotation by file rewrite / other file / SDS push; TLS 1.2 and 1.3; upstream: MOSN connects twice to a stock "
+                       "server that hands out tickets, certificate run out / CA rotated / skip switched / server_name changed in between), "
+                       "enumerated by TLC from TLSSelectMC; all replayed into the real context "
                        "managers, and a seeded sample (all auth/inspector/upstream cases + %d context lists) again through listeners and "
                        "TLS clusters of an in-process MOSN" % (8 if q else 11, 40 if q else 250))
     ctx.cov["exhaustive"] = True
@@ -206,6 +237,13 @@ def run(ctx):
         "MOSN side runs with GODEBUG=tls13=1 so that both handshake_server.go (1.2) and handshake_server_tls13.go (1.3) are exercised",
         "ECDSA P-256 certificates only; loopback TCP; e2e part: tcp_proxy listeners of one in-process MOSN (handler.go OnAccept, connection.go tryConnect)",
         "SDS contexts get their secrets through an injected SdsClient (mtls.VerifSetSdsClientFunc); seed chooses static vs SDS and CN/SAN layout",
+        "returning peers: stock crypto/tls client with its own LRU session cache per peer; short-lived certificates are issued right before the first "
+        "visit with NotAfter = now + 2 s truncated to the second; every handshake carries what the clock said (read before and after it) about "
+        "NotAfter, a handshake during which the certificate ran out is not judged (coverage.returning_peers.clock_edge); a refused TLS 1.3 PSK "
+        "is refused before the server shows a certificate: the context the property prescribes is taken as the one that refused",
+        "MOSN's TLS client configuration keeps no session cache (no ClientSessionCache is set anywhere in pkg/mtls outside the forked "
+        "crypto/tls): second visits to an upstream are full handshakes (coverage.returning_peers.upstream_resumed = 0); the upstream returning "
+        "cases judge whatever is done there by the cluster tls config and the clock of the second visit",
         "races: SDS rotation and config update of one SDS context in two goroutines, each of the 6 gate-level schedules forced through "
         "mtls.RegisterTlsContextCallback (parks a writer between 'context built' and 'context stored'); a step the code does not allow "
         "(writer blocked on a lock) degrades after 80 ms and is counted in coverage.race_schedules, the resulting policy is judged either way",
